@@ -223,7 +223,7 @@ def run(ctx, res):
             res.sample({"type": case["ltype"], "hyper": case["hyper"], "ddt": case["ddt"], "dd": case["dd"],
                         "value": out.get("value"), "data_call": lc.canon_data_call(*rec.data[0][:2]) if rec.data else None})
         impl.append((out, rec))
-        lines.append({"op": "Lens.single", "cfg": lc.encode_cfg(lens, case["ltype"]), "hyper": lc.encode_hyper(case["hyper"]),
+        lines.append({"op": "Lens.single", "cfg": lc.encode_cfg(lens, case["ltype"], case["cfg"]), "hyper": lc.encode_hyper(case["hyper"]),
                       "ddt": f2b(case["ddt"]), "dd": f2b(case["dd"]), "dLum": f2b(case["dlum"]), "beta": lc.opt(case["beta"]),
                       "ext": {"losDraw": (f2b(rec.gev[0]) if rec.gev else None),
                               "kinScaling": [f2b(x) for x in (rec.kin[0][1] if rec.kin else [])]},
